@@ -15,11 +15,13 @@ func (w *verifWorld) mkMsg(tag string) *verifMsg {
 	n := verifInt(tag + "_n")
 	verifAssume(n >= 0 && n <= 2)
 	other := verifStr("keyOther")
-	verifAssume(other != w.keys[0] && other != w.keys[1] && other != "")
-	all := []string{
-		verifChoose(tag+"_k0", w.keys[0], w.keys[1], other),
-		verifChoose(tag+"_k1", w.keys[0], w.keys[1], other),
+	verifAssume(other != "")
+	ks := []string{other}
+	for x := 0; x < vK; x++ {
+		verifAssume(other != w.keys[x])
+		ks = append(ks, w.keys[x])
 	}
+	all := []string{verifChoose(tag+"_k0", ks...), verifChoose(tag+"_k1", ks...)}
 	m := &verifMsg{Keys: all[:n]}
 	if verifBool(tag + "_nil") {
 		m = nil
